@@ -45,9 +45,67 @@ def unseq(t):
     return t
 
 
-def unwrap(t, funcs=IDENT_FUNCS, methods=IDENT_METHODS):
-    """strip value-preserving wrappers"""
+CAST_FUNCS = {"numpy.asarray", "numpy.array", "numpy.asanyarray", "numpy.ascontiguousarray", "numpy.asfarray", "numpy.require"}
+WIDE_DTYPES = {"float64", "float", "f8", "d", "double", "longdouble", "float128", "complex", "complex128", "numpy.float64", "numpy.double", "numpy.float_",
+               "numpy.longdouble", "numpy.complex128", "builtins.float", "builtins.complex", "object", "builtins.object", "O"}
+
+
+INT_DTYPES = {"int", "int64", "intp", "i8", "numpy.int64", "numpy.intp", "numpy.int_", "builtins.int"}
+
+
+def cast_of(t):
+    """(value, dtype term) if t converts `value` to an explicitly given dtype, else None"""
+    if t[0] != "call":
+        return None
+    if t[1][0] == "glob" and t[1][1] in CAST_FUNCS and t[2]:
+        d = kw(t, "dtype")
+        if d is None and len(t[2]) > 1:
+            d = t[2][1]
+        return (t[2][0], d) if d is not None and d != NONE else None
+    if t[1][0] == "attr" and t[1][2] == "astype":
+        d = t[2][0] if t[2] else kw(t, "dtype")
+        return (t[1][1], d) if d is not None else None
+    return None
+
+
+def cast_kind(value, d):
+    """'same' (the value's own dtype), 'integer' (a full-width integer literal: exact for index lists, truncating for anything else), 'widening' (every real input is representable), 'narrowing' (a dtype that does not depend
+    on the value, or a small literal one: the conversion can truncate), 'unknown'"""
+    if d[0] == "attr" and d[2] == "dtype":
+        return "same" if unwrap(d[1]) == unwrap(value) else "narrowing"
+    if (d[0] == "const" and d[1] in INT_DTYPES) or (d[0] == "glob" and d[1] in INT_DTYPES):
+        return "integer"
+    if d[0] == "const" and isinstance(d[1], str):
+        return "widening" if d[1] in WIDE_DTYPES else "narrowing"
+    if d[0] == "glob":
+        return "widening" if d[1] in WIDE_DTYPES else ("narrowing" if d[1].startswith(("numpy.", "builtins.")) else "unknown")
+    if d[0] == "call" and callee(d) in ("numpy.result_type", "numpy.promote_types", "numpy.find_common_type"):
+        mine = {unwrap(value), ("attr", unwrap(value), "dtype")}
+        ops = [unwrap(x) if not (x[0] == "attr" and x[2] == "dtype") else ("attr", unwrap(x[1]), "dtype") for x in d[2]]
+        return "widening" if any(o in mine for o in ops) else "narrowing"
+    return "unknown"
+
+
+def narrowing_casts(t):
+    """[(cast term, kind)] for every conversion inside t that can lose information ('narrowing') or cannot be classified ('unknown')"""
+    out = []
+    for x in walk(t):
+        if isinstance(x, tuple) and x and x[0] == "call":
+            c = cast_of(x)
+            if c is not None:
+                k = cast_kind(*c)
+                if k in ("narrowing", "unknown", "integer"):
+                    out.append((x, k))
+    return out
+
+
+def unwrap(t, funcs=IDENT_FUNCS, methods=IDENT_METHODS, int_ok=False):
+    """strip value-preserving wrappers (a conversion to an explicit dtype is value-preserving only when it cannot narrow;
+    int_ok: the value is an index list, for which a conversion to a full-width integer type is exact)"""
     while True:
+        c = cast_of(t) if t[0] == "call" else None
+        if c is not None and cast_kind(*c) in (("narrowing", "unknown") if int_ok else ("narrowing", "unknown", "integer")):
+            return t
         if t[0] in ("tuple", "list") and len(t[1]) == 1 and t[1][0][0] == "star":
             t = t[1][0][1]
             continue
